@@ -45,8 +45,68 @@ fn sorted_seqs(vals: &[u32], max_len: usize) -> Vec<Vec<u32>> {
     out
 }
 
+/// Long ranges (15..65 segments: a length threshold in a fast path shows) against short ranges anchored
+/// at each kind of coincidence with one of the long range's bounds.
+/// Bound values are ODD (the doubled-grid convention of this harness: even numbers are the gaps between
+/// bound values, 0 lies below all of them), so that the pointwise oracles see every structural difference.
+/// pattern 0: singletons {1} {9} {17} …; 1: closed intervals [1,3] [9,11] …; 2: half-open [1,5) [9,13) …;
+/// 3: open-closed (1,5] (9,13] …
+fn long_range(pattern: u32, n: u32) -> String {
+    let segs: Vec<String> = (0..n)
+        .map(|i| {
+            let a = 8 * i + 1;
+            match pattern {
+                0 => format!("i{}:i{}", a, a),
+                1 => format!("i{}:i{}", a, a + 2),
+                2 => format!("i{}:e{}", a, a + 4),
+                _ => format!("e{}:i{}", a, a + 4),
+            }
+        })
+        .collect();
+    segs.join(" ")
+}
+
+pub fn long_range_pairs(thorough: bool) -> Vec<(String, String)> {
+    let lens: &[u32] = if thorough { &[15, 16, 17, 31, 32, 33, 63, 64, 65] } else { &[15, 16, 17, 33] };
+    let mut out = vec![];
+    for &n in lens {
+        for pattern in 0..4 {
+            let long = long_range(pattern, n);
+            // anchors: bounds of the first, a middle, the 16th/17th and the last segment, and the gaps next to them
+            let mut anchors: Vec<u32> = vec![];
+            for i in [0, 1, n / 2, 14.min(n - 1), 15.min(n - 1), 16.min(n - 1), n - 2, n - 1] {
+                for d in [1, 3, 5, 7] {
+                    anchors.push(8 * i + d);
+                }
+            }
+            anchors.sort();
+            anchors.dedup();
+            for x in anchors {
+                for short in [
+                    format!("i{}:u", x), format!("e{}:u", x), format!("u:i{}", x), format!("u:e{}", x), format!("i{}:i{}", x, x),
+                    format!("i{}:e{}", x, x + 6), format!("e{}:i{}", x, x + 10), format!("i{}:i{} i{}:u", x, x, x + 18),
+                ] {
+                    out.push((long.clone(), short.clone()));
+                    out.push((short, long.clone()));
+                }
+            }
+            // two long ranges of different patterns
+            out.push((long.clone(), long_range((pattern + 1) % 4, n)));
+        }
+    }
+    out
+}
+
 pub fn gen_c10(sink: &mut Sink, thorough: bool, seed: u64) {
     let mut rng = Rng::new(seed);
+    let pairs = long_range_pairs(thorough);
+    for (a, b) in &pairs {
+        sink.push(eval_line(&format!("rbin|{}|{}", a, b)));
+    }
+    for (a, _) in pairs.iter().step_by(97) {
+        sink.push(eval_line(&format!("run|{}", a)));
+    }
+    sink.notes.push(format!("{} pairs of a long range (15..65 segments, 4 patterns) with a short range anchored at every kind of coincidence with its bounds", pairs.len()));
     for (kind, v1, v2) in [
         ("empty", 0, 0), ("full", 0, 0), ("singleton", 3, 0), ("higher_than", 3, 0),
         ("strictly_higher_than", 3, 0), ("lower_than", 3, 0), ("strictly_lower_than", 3, 0),
@@ -123,6 +183,11 @@ pub fn gen_c15(sink: &mut Sink, thorough: bool, seed: u64) {
 
 pub fn gen_c16(sink: &mut Sink, thorough: bool, seed: u64) {
     let mut rng = Rng::new(seed);
+    for (i, (a, b)) in long_range_pairs(thorough).iter().enumerate() {
+        if i % 7 == 0 {
+            sink.push(eval_line(&format!("rbin|{}|{}", a, b)));
+        }
+    }
     let r3 = all_ranges(3);
     for a in &r3 {
         for b in &r3 {
@@ -165,6 +230,12 @@ pub fn gen_c16(sink: &mut Sink, thorough: bool, seed: u64) {
 
 pub fn gen_c11(sink: &mut Sink, thorough: bool, seed: u64) {
     let mut rng = Rng::new(seed);
+    for (i, (a, b)) in long_range_pairs(thorough).iter().enumerate() {
+        if i % 5 == 0 {
+            let (sa, sb) = (if i % 2 == 0 { "+" } else { "~" }, if i % 3 == 0 { "+" } else { "~" });
+            sink.push(eval_line(&format!("term2|{}{}|{}{}", sa, a, sb, b)));
+        }
+    }
     let k = 3;
     let rs = all_ranges(k);
     let mut terms = vec![];
